@@ -303,6 +303,8 @@ class FaultPoint(EngineBase):
                 # access to its task/<tid>/ record
                 k.schedule_at_access(0, 1, f["k"], {
                     "ev": "thread_exit", "pid": f["pid"], "tid": f["tid"]})
+            elif kind == "ENOENT_QUIRK":
+                k.schedule_fault(0, 1, f["k"], {"kind": kind, "errno": 2})
             else:
                 k.schedule_fault(0, 1, f["k"], {"kind": kind,
                                                 "errno": ERRNO[kind]})
@@ -535,6 +537,13 @@ class FaultPoint(EngineBase):
                 if m_ and int(m_.group(1)) != target and pid == target:
                     singles.append((kk, kind, arg, pid, "THREAD_EXIT"))
                     thread_exits[kk] = int(m_.group(1))
+            for (kk, kind, arg, pid) in targets:
+                if kind == "open" and str(arg).endswith("/smaps_rollup") \
+                        and pid == target:
+                    # the quirk psutil's sources document: smaps_rollup
+                    # answers ENOENT for a process that is still there
+                    # (the smaps file works): a value is expected
+                    singles.append((kk, kind, arg, pid, "ENOENT_QUIRK"))
             for (kk, kind, arg, pid, fk) in list(singles):
                 if fk == "ZOMBIE" and pid == target and (kk + len(name)) % 3 \
                         == 0:
